@@ -1,7 +1,7 @@
 import FatVerif.Proofs.SlotTreeImg9
 /-!
 # Slot trees on a device image, part 10: facts about the model's results (kind of the root, no `hang`, the tree after an
-error) used by the call machinery of part 15
+error) used by the call machinery of part 20
 -/
 namespace FatVerif
 namespace SlotTreeImg
